@@ -234,7 +234,11 @@ def unhex(v: Any) -> bytes | None:
             return bytes.fromhex(v.decode("ascii"))
         except (UnicodeDecodeError, ValueError):
             return v
-    return bytes.fromhex(v)
+    try:
+        return bytes.fromhex(v)
+    except ValueError:
+        # a stored text that is no hex string is not the pdu, whatever it is: hand the comparison something that equals no pdu
+        return b"\x00stored text is not hex: " + str(v)[:48].encode("utf-8", "replace") + b" ... " + str(v)[-16:].encode("utf-8", "replace")
 
 
 # ---- transports -----------------------------------------------------------------------------------
